@@ -47,6 +47,8 @@ func c17RunImpl(c corr.Case) []string {
 		t := strings.Fields(line)
 		out = append(out, guard(func() string {
 			switch t[0] {
+			case "deep-osl":
+				return deepOSL(t[1])
 			case "case":
 				if st != nil {
 					st.Cleanup()
@@ -257,6 +259,10 @@ func c17Oracle(c corr.Case, impl []string) (string, int) {
 		case "rt":
 			if impl[i] != "rt ok" {
 				return t[1] + ": " + impl[i], i
+			}
+		case "deep-osl":
+			if strings.HasPrefix(impl[i], "fail") {
+				return impl[i], i
 			}
 		}
 	}
@@ -536,6 +542,10 @@ func c17Corpus() []corr.Case {
 		mk("case mem", "rt writereader-over 2f612f66 5 1", "rt writefile-over 2f612f67 0 1", "rt writereader-over 2f612f68 40000 3"),
 		mk("case cache0", "rt writereader-over 2f612f66 5 1", "rt writefile-over 2f612f67 9 1"),
 		mk("case os", "rt writereader-over 2f612f66 5 1", "rt writefile-over 2f612f67 9 1"),
+		// contents and needles that are well-formed UTF-8 beyond ASCII (the search is over bytes)
+		mk("case mem", "contains e697a5e69cace8aa9ee381aee38386e382ade382b9e38388e38081e38193e38193e381abe9879de3818ce38182e3828ae381bee38199e38082 e9879d", "contains e697a5e69cace8aa9ee381aee38386e382ade382b9e38388e38081e38193e38193e381abe9879de3818ce38182e3828ae381bee38199e38082 e38386e382ade382b9e38388", "contains e697a5e69cace8aa9ee381aee38386e382ade382b9e38388e38081e38193e38193e381abe9879de3818ce38182e3828ae381bee38199e38082 e78cab", "contains 4469652053747261c39f652066c3bc68727420c3bc6265722064656e20466c75c39f20e2809420636166c3a92c206e61c3af76652c20c3bc626572 c39f", "contains 4469652053747261c39f652066c3bc68727420c3bc6265722064656e20466c75c39f20e2809420636166c3a92c206e61c3af76652c20c3bc626572 c3bc626572 78797a", "contains 4469652053747261c39f652066c3bc68727420c3bc6265722064656e20466c75c39f20e2809420636166c3a92c206e61c3af76652c20c3bc626572 c3a9", "contains 4469652053747261c39f652066c3bc68727420c3bc6265722064656e20466c75c39f20e2809420636166c3a92c206e61c3af76652c20c3bc626572 c3", "contains 4469652053747261c39f652066c3bc68727420c3bc6265722064656e20466c75c39f20e2809420636166c3a92c206e61c3af76652c20c3bc626572 9f", "contains e697a5e69cace8aa9ee381aee38386e382ade382b9e38388e38081e38193e38193e381abe9879de3818ce38182e3828ae381bee38199e38082e697a5e69cace8aa9ee381aee38386e382ade382b9e38388e38081e38193e38193e381abe9879de3818ce38182e3828ae381bee38199e38082e697a5e69cace8aa9ee381aee38386e382ade382b9e38388e38081e38193e38193e381abe9879de3818ce38182e3828ae381bee38199e38082e697a5e69cace8aa9ee381aee38386e382ade382b9e38388e38081e38193e38193e381abe9879de3818ce38182e3828ae381bee38199e38082e697a5e69cace8aa9ee381aee38386e382ade382b9e38388e38081e38193e38193e381abe9879de3818ce38182e3828ae381bee38199e38082e697a5e69cace8aa9ee381aee38386e382ade382b9e38388e38081e38193e38193e381abe9879de3818ce38182e3828ae381bee38199e38082e697a5e69cace8aa9ee381aee38386e382ade382b9e38388e38081e38193e38193e381abe9879de3818ce38182e3828ae381bee38199e38082e697a5e69cace8aa9ee381aee38386e382ade382b9e38388e38081e38193e38193e381abe9879de3818ce38182e3828ae381bee38199e38082e697a5e69cace8aa9ee381aee38386e382ade382b9e38388e38081e38193e38193e381abe9879de3818ce38182e3828ae381bee38199e38082e697a5e69cace8aa9ee381aee38386e382ade382b9e38388e38081e38193e38193e381abe9879de3818ce38182e3828ae381bee38199e38082e697a5e69cace8aa9ee381aee38386e382ade382b9e38388e38081e38193e38193e381abe9879de3818ce38182e3828ae381bee38199e38082e697a5e69cace8aa9ee381aee38386e382ade382b9e38388e38081e38193e38193e381abe9879de3818ce38182e3828ae381bee38199e38082e697a5e69cace8aa9ee381aee38386e382ade382b9e38388e38081e38193e38193e381abe9879de3818ce38182e3828ae381bee38199e38082e697a5e69cace8aa9ee381aee38386e382ade382b9e38388e38081e38193e38193e381abe9879de3818ce38182e3828ae381bee38199e38082e697a5e69cace8aa9ee381aee38386e382ade382b9e38388e38081e38193e38193e381abe9879de3818ce38182e3828ae381bee38199e38082e697a5e69cace8aa9ee381aee38386e382ade382b9e38388e38081e38193e38193e381abe9879de3818ce38182e3828ae381bee38199e38082e697a5e69cace8aa9ee381aee38386e382ade382b9e38388e38081e38193e38193e381abe9879de3818ce38182e3828ae381bee38199e38082e697a5e69cace8aa9ee381aee38386e382ade382b9e38388e38081e38193e38193e381abe9879de3818ce38182e3828ae381bee38199e38082e697a5e69cace8aa9ee381aee38386e382ade382b9e38388e38081e38193e38193e381abe9879de3818ce38182e3828ae381bee38199e38082e697a5e69cace8aa9ee381aee38386e382ade382b9e38388e38081e38193e38193e381abe9879de3818ce38182e3828ae381bee38199e38082e697a5e69cace8aa9ee381aee38386e382ade382b9e38388e38081e38193e38193e381abe9879de3818ce38182e3828ae381bee38199e38082e697a5e69cace8aa9ee381aee38386e382ade382b9e38388e38081e38193e38193e381abe9879de3818ce38182e3828ae381bee38199e38082e697a5e69cace8aa9ee381aee38386e382ade382b9e38388e38081e38193e38193e381abe9879de3818ce38182e3828ae381bee38199e38082e697a5e69cace8aa9ee381aee38386e382ade382b9e38388e38081e38193e38193e381abe9879de3818ce38182e3828ae381bee38199e38082e697a5e69cace8aa9ee381aee38386e382ade382b9e38388e38081e38193e38193e381abe9879de3818ce38182e3828ae381bee38199e38082e697a5e69cace8aa9ee381aee38386e382ade382b9e38388e38081e38193e38193e381abe9879de3818ce38182e3828ae381bee38199e38082e697a5e69cace8aa9ee381aee38386e382ade382b9e38388e38081e38193e38193e381abe9879de3818ce38182e3828ae381bee38199e38082e697a5e69cace8aa9ee381aee38386e382ade382b9e38388e38081e38193e38193e381abe9879de3818ce38182e3828ae381bee38199e38082e697a5e69cace8aa9ee381aee38386e382ade382b9e38388e38081e38193e38193e381abe9879de3818ce38182e3828ae381bee38199e38082e697a5e69cace8aa9ee381aee38386e382ade382b9e38388e38081e38193e38193e381abe9879de3818ce38182e3828ae381bee38199e38082e697a5e69cace8aa9ee381aee38386e382ade382b9e38388e38081e38193e38193e381abe9879de3818ce38182e3828ae381bee38199e38082e697a5e69cace8aa9ee381aee38386e382ade382b9e38388e38081e38193e38193e381abe9879de3818ce38182e3828ae381bee38199e38082e697a5e69cace8aa9ee381aee38386e382ade382b9e38388e38081e38193e38193e381abe9879de3818ce38182e3828ae381bee38199e38082e697a5e69cace8aa9ee381aee38386e382ade382b9e38388e38081e38193e38193e381abe9879de3818ce38182e3828ae381bee38199e38082e697a5e69cace8aa9ee381aee38386e382ade382b9e38388e38081e38193e38193e381abe9879de3818ce38182e3828ae381bee38199e38082e697a5e69cace8aa9ee381aee38386e382ade382b9e38388e38081e38193e38193e381abe9879de3818ce38182e3828ae381bee38199e38082e697a5e69cace8aa9ee381aee38386e382ade382b9e38388e38081e38193e38193e381abe9879de3818ce38182e3828ae381bee38199e38082e697a5e69cace8aa9ee381aee38386e382ade382b9e38388e38081e38193e38193e381abe9879de3818ce38182e3828ae381bee38199e38082e697a5e69cace8aa9ee381aee38386e382ade382b9e38388e38081e38193e38193e381abe9879de3818ce38182e3828ae381bee38199e38082e697a5e69cace8aa9ee381aee38386e382ade382b9e38388e38081e38193e38193e381abe9879de3818ce38182e3828ae381bee38199e38082 e9879d", "contains e697a5e69cace8aa9ee381aee38386e382ade382b9e38388e38081e38193e38193e381abe9879de3818ce38182e3828ae381bee38199e38082e697a5e69cace8aa9ee381aee38386e382ade382b9e38388e38081e38193e38193e381abe9879de3818ce38182e3828ae381bee38199e38082e697a5e69cace8aa9ee381aee38386e382ade382b9e38388e38081e38193e38193e381abe9879de3818ce38182e3828ae381bee38199e38082e697a5e69cace8aa9ee381aee38386e382ade382b9e38388e38081e38193e38193e381abe9879de3818ce38182e3828ae381bee38199e38082e697a5e69cace8aa9ee381aee38386e382ade382b9e38388e38081e38193e38193e381abe9879de3818ce38182e3828ae381bee38199e38082e697a5e69cace8aa9ee381aee38386e382ade382b9e38388e38081e38193e38193e381abe9879de3818ce38182e3828ae381bee38199e38082e697a5e69cace8aa9ee381aee38386e382ade382b9e38388e38081e38193e38193e381abe9879de3818ce38182e3828ae381bee38199e38082e697a5e69cace8aa9ee381aee38386e382ade382b9e38388e38081e38193e38193e381abe9879de3818ce38182e3828ae381bee38199e38082e697a5e69cace8aa9ee381aee38386e382ade382b9e38388e38081e38193e38193e381abe9879de3818ce38182e3828ae381bee38199e38082e697a5e69cace8aa9ee381aee38386e382ade382b9e38388e38081e38193e38193e381abe9879de3818ce38182e3828ae381bee38199e38082e697a5e69cace8aa9ee381aee38386e382ade382b9e38388e38081e38193e38193e381abe9879de3818ce38182e3828ae381bee38199e38082e697a5e69cace8aa9ee381aee38386e382ade382b9e38388e38081e38193e38193e381abe9879de3818ce38182e3828ae381bee38199e38082e697a5e69cace8aa9ee381aee38386e382ade382b9e38388e38081e38193e38193e381abe9879de3818ce38182e3828ae381bee38199e38082e697a5e69cace8aa9ee381aee38386e382ade382b9e38388e38081e38193e38193e381abe9879de3818ce38182e3828ae381bee38199e38082e697a5e69cace8aa9ee381aee38386e382ade382b9e38388e38081e38193e38193e381abe9879de3818ce38182e3828ae381bee38199e38082e697a5e69cace8aa9ee381aee38386e382ade382b9e38388e38081e38193e38193e381abe9879de3818ce38182e3828ae381bee38199e38082e697a5e69cace8aa9ee381aee38386e382ade382b9e38388e38081e38193e38193e381abe9879de3818ce38182e3828ae381bee38199e38082e697a5e69cace8aa9ee381aee38386e382ade382b9e38388e38081e38193e38193e381abe9879de3818ce38182e3828ae381bee38199e38082e697a5e69cace8aa9ee381aee38386e382ade382b9e38388e38081e38193e38193e381abe9879de3818ce38182e3828ae381bee38199e38082e697a5e69cace8aa9ee381aee38386e382ade382b9e38388e38081e38193e38193e381abe9879de3818ce38182e3828ae381bee38199e38082e697a5e69cace8aa9ee381aee38386e382ade382b9e38388e38081e38193e38193e381abe9879de3818ce38182e3828ae381bee38199e38082e697a5e69cace8aa9ee381aee38386e382ade382b9e38388e38081e38193e38193e381abe9879de3818ce38182e3828ae381bee38199e38082e697a5e69cace8aa9ee381aee38386e382ade382b9e38388e38081e38193e38193e381abe9879de3818ce38182e3828ae381bee38199e38082e697a5e69cace8aa9ee381aee38386e382ade382b9e38388e38081e38193e38193e381abe9879de3818ce38182e3828ae381bee38199e38082e697a5e69cace8aa9ee381aee38386e382ade382b9e38388e38081e38193e38193e381abe9879de3818ce38182e3828ae381bee38199e38082e697a5e69cace8aa9ee381aee38386e382ade382b9e38388e38081e38193e38193e381abe9879de3818ce38182e3828ae381bee38199e38082e697a5e69cace8aa9ee381aee38386e382ade382b9e38388e38081e38193e38193e381abe9879de3818ce38182e3828ae381bee38199e38082e697a5e69cace8aa9ee381aee38386e382ade382b9e38388e38081e38193e38193e381abe9879de3818ce38182e3828ae381bee38199e38082e697a5e69cace8aa9ee381aee38386e382ade382b9e38388e38081e38193e38193e381abe9879de3818ce38182e3828ae381bee38199e38082e697a5e69cace8aa9ee381aee38386e382ade382b9e38388e38081e38193e38193e381abe9879de3818ce38182e3828ae381bee38199e38082e697a5e69cace8aa9ee381aee38386e382ade382b9e38388e38081e38193e38193e381abe9879de3818ce38182e3828ae381bee38199e38082e697a5e69cace8aa9ee381aee38386e382ade382b9e38388e38081e38193e38193e381abe9879de3818ce38182e3828ae381bee38199e38082e697a5e69cace8aa9ee381aee38386e382ade382b9e38388e38081e38193e38193e381abe9879de3818ce38182e3828ae381bee38199e38082e697a5e69cace8aa9ee381aee38386e382ade382b9e38388e38081e38193e38193e381abe9879de3818ce38182e3828ae381bee38199e38082e697a5e69cace8aa9ee381aee38386e382ade382b9e38388e38081e38193e38193e381abe9879de3818ce38182e3828ae381bee38199e38082e697a5e69cace8aa9ee381aee38386e382ade382b9e38388e38081e38193e38193e381abe9879de3818ce38182e3828ae381bee38199e38082e697a5e69cace8aa9ee381aee38386e382ade382b9e38388e38081e38193e38193e381abe9879de3818ce38182e3828ae381bee38199e38082e697a5e69cace8aa9ee381aee38386e382ade382b9e38388e38081e38193e38193e381abe9879de3818ce38182e3828ae381bee38199e38082e697a5e69cace8aa9ee381aee38386e382ade382b9e38388e38081e38193e38193e381abe9879de3818ce38182e3828ae381bee38199e38082e697a5e69cace8aa9ee381aee38386e382ade382b9e38388e38081e38193e38193e381abe9879de3818ce38182e3828ae381bee38199e38082 e3818ce38182e3828ae381bee38199e38082e697a5e69cac"),
+		// a union whose overlay keeps real directories, files several directories deep
+		mk("case mem", "deep-osl cow"),
 		// a name without any directory part; payloads larger than io.Copy's buffer through a reader without WriteTo
 		mk("case mem", "rt safeexisting "+corr.HexS("keep.txt")+" 40 1", "rt writereader "+corr.HexS("bare.bin")+" 9 2", "rt safewrite "+corr.HexS("bare2.bin")+" 9 3",
 			"rt writereader-plain 2f612f71 32769 4", "rt safewrite-plain 2f612f72 100000 5", "rt writereader-plain 2f612f73 5 6"),
